@@ -1,0 +1,8 @@
+//go:build verif
+
+package pipeline
+
+// Exported accessor for the C10 correspondence harness (/verif/harness/c10). Add-only.
+
+// VerifC10Current returns the `current` offset an input plugin attached to an event via NewOffsets.
+func (o Offsets) VerifC10Current() int64 { return o.current }
